@@ -22,7 +22,7 @@ MORE_PAYLOADS = ["masked_sometimes"]  # a masked payload whose mask is empty for
 
 def mk_adapter(kind):
     return {
-        "direct": lambda: None, "Next": D.NextTime, "Previous": D.PreviousTime, "Linear": D.LinearTime, "Step": lambda: D.StepTime(step=0.5),
+        "direct": lambda: None, "static": lambda: None, "Next": D.NextTime, "Previous": D.PreviousTime, "Linear": D.LinearTime, "Step": lambda: D.StepTime(step=0.5),
         "Avg": D.AvgOverTime, "AvgStep": lambda: D.AvgOverTime(step=0.5), "Sum": lambda: D.SumOverTime(per_time=True), "SumAbs": lambda: D.SumOverTime(per_time=False),
         "SumLin": lambda: D.SumOverTime(step=None, per_time=True),
     }[kind]()
@@ -48,10 +48,12 @@ def payload(kind, t):
 
 
 class Prod(fm.TimeComponent):
-    def __init__(self, pk, step, units):
+    def __init__(self, pk, step, units, repush=False):
         super().__init__()
         self._time = T0
         self.pk, self.step, self.units = pk, step, units
+        self.static = False
+        self.repush = repush  # every step is published twice for the same time (a preliminary value, then the final one)
 
     def _next_time(self):
         return self.time + H(self.step)
@@ -65,7 +67,7 @@ class Prod(fm.TimeComponent):
             info = fm.Info(time=self.time, grid=GRID, units=self.units, mask=fm.Mask.FLEX)
         else:
             info = fm.Info(time=self.time, grid=GRID, units=self.units, mask=MASK)
-        self.outputs.add(name="o", info=info)
+        self.outputs.add(name="o", info=info, static=self.static)
         self.create_connector()
 
     def _connect(self, st):
@@ -77,7 +79,10 @@ class Prod(fm.TimeComponent):
     def _update(self):
         self.watch("before_update_prod")
         self._time = self.next_time
-        self.outputs["o"].push_data(payload(self.pk, self.time), self.time)
+        if self.repush:
+            self.outputs["o"].push_data(payload(self.pk, self.time) * 0.5, self.time)
+        if not self.static:
+            self.outputs["o"].push_data(payload(self.pk, self.time), self.time)
         self.watch("after_update_prod")
 
     def _finalize(self):
@@ -97,7 +102,7 @@ class Cons(fm.TimeComponent):
         return self.time + H(self.step)
 
     def _initialize(self):
-        self.inputs.add(name="i", time=self.time, grid=None, units=None)
+        self.inputs.add(name="i", time=self.time, grid=None, units=None, static=getattr(self, "static", False))
         self.create_connector(pull_data=["i"])
 
     def rec(self, t, d):
@@ -139,12 +144,12 @@ def chain_for(kind):
     for p in parts:
         if p == "D":
             out.append(D.DelayFixed(H(2)))
-        elif p != "direct":
+        elif p not in ("direct", "static"):
             out.append(mk_adapter(p))
     return out
 
 
-def run_one(kind, pk, limit, steps, end, tag, via="composition", order="PC"):
+def run_one(kind, pk, limit, steps, end, tag, via="composition", order="PC", repush=False):
     """returns (series | ('EXC', cls, msg), files_outside, files_left, spilled_files_seen)"""
     wd = os.path.join(WORK, tag)
     shutil.rmtree(wd, ignore_errors=True)
@@ -164,7 +169,9 @@ def run_one(kind, pk, limit, steps, end, tag, via="composition", order="PC"):
     Prod.watch = staticmethod(watch)
     units = "mm/h" if kind.split("+")[0] in ("Sum", "SumLin") or kind.endswith("+Sum") else "m"
     try:
-        p, c = Prod(pk, steps[0], units), Cons(pk, steps[1])
+        p, c = Prod(pk, steps[0], units, repush), Cons(pk, steps[1])
+        if kind == "static":  # a static output read by a static input on every step of the consumer
+            p.static = c.static = True
         comp = compose([p, c] if order == "PC" else [c, p], slot_memory_limit=limit if via == "composition" else None, slot_memory_location=loc)
         ads = chain_for(kind)
         if via == "slot":  # limit given per slot, location composition-wide
@@ -186,6 +193,50 @@ def run_one(kind, pk, limit, steps, end, tag, via="composition", order="PC"):
         os.chdir(old)
         shutil.rmtree(wd, ignore_errors=True)
     return res, sorted(outside), left, len(seen)
+
+
+def run_shared(case):
+    """two compositions built side by side on ONE spill location, run one after the other (history: the first run has been finalized when the
+    second one starts to spill): the second one must deliver what it delivers alone, and nothing may be left in the location"""
+    pk, steps, lim = case["payload"], tuple(case["steps"]), case["limit"]
+    tag = "shared_%s_%s_%s_%d" % (pk, steps[0], steps[1], os.getpid())
+    res = dict(n=1, nontrivial=1, counters={"shared_location_runs": 1}, violations=[])
+    alone, _o, _l, _n = run_one("direct", pk, lim, steps, case["end"], tag, "composition", "PC")
+    wd = os.path.join(WORK, tag)
+    shutil.rmtree(wd, ignore_errors=True)
+    os.makedirs(wd)
+    old = os.getcwd()
+    os.chdir(wd)
+    loc = os.path.join(wd, "spill")
+    Prod.watch = staticmethod(lambda _t: None)
+    try:
+        pairs = []
+        for k in range(2):
+            p, c = Prod(pk, steps[0], "m"), Cons(pk, steps[1])
+            comp = compose([p, c], slot_memory_limit=lim, slot_memory_location=loc)
+            p.outputs["o"] >> c.inputs["i"]
+            pairs.append((comp, c))
+        if case.get("connect_second_first"):
+            pairs[1][0].connect(T0)
+        out = []
+        for comp, c in pairs:
+            try:
+                comp.run(end_time=T0 + H(case["end"]))
+                out.append(c.series)
+            except Exception as e:  # noqa
+                out.append(("EXC", type(e).__name__, str(e)[:160]))
+        left = [f for f in listing(wd) if f.startswith("spill" + os.sep)]
+    finally:
+        os.chdir(old)
+        shutil.rmtree(wd, ignore_errors=True)
+    for k, got in enumerate(out):
+        diff = same_series(alone, got)
+        if diff:
+            res["violations"].append(viol(dict(kind="shared_spill_location", how=diff, which=k, error=got[1] if isinstance(got, tuple) else None), f"composition {k} of two on one spill location, payload={pk} steps={steps} limit={lim}: {diff}: {str(got)[:200]}", dict(case, shared=True)))
+    if left:
+        res["violations"].append(viol(dict(kind="spill_files_left_after_finalize", slot="shared_location"), f"{len(left)} files left: {left[:2]}", dict(case, shared=True)))
+    res["sample"] = dict(case)
+    return res
 
 
 def same_series(a, b):
@@ -223,21 +274,26 @@ def run_case(case):
     cnt = res["counters"]
     via = case.get("via", "composition")
     order = case.get("order", "PC")
-    ref, out0, left0, _ = run_one(kind, pk, None, steps, end, tag, "composition", order)
+    rp = bool(case.get("repush"))
+    ref, out0, left0, _ = run_one(kind, pk, None, steps, end, tag, "composition", order, rp)
     size = 8 if pk == "scalar" else 48
     lims = case.get("limits") or limits_for(size, case["nmax"])
+    if isinstance(ref, tuple) and rp:
+        # publishing one time stamp twice is outside what the integration adapters define (zero-length interval): not C10's subject
+        cnt["repush_unsupported_by_slot_kind"] = 1
+        return res
     if isinstance(ref, tuple):
         res["violations"].append(viol(dict(kind="unlimited_run_fails", error=ref[1]), f"{kind}/{pk}/{steps}: run without limit fails: {ref}", dict(case, limits=[0])))
         return res
     for lim in lims:
         res["n"] += 1
-        got, outside, left, nseen = run_one(kind, pk, lim, steps, end, tag, via, order)
+        got, outside, left, nseen = run_one(kind, pk, lim, steps, end, tag, via, order, rp)
         if nseen:
             res["nontrivial"] += 1
             cnt["runs_that_spilled"] = cnt.get("runs_that_spilled", 0) + 1
         one = dict(case, limits=[lim])
         diff = same_series(ref, got)
-        slot = "output" if kind.startswith("direct") else "adapter:" + kind
+        slot = "output" if kind.startswith(("direct", "static")) else "adapter:" + kind
         if diff:
             detail = got[1] + ": " + got[2] if isinstance(got, tuple) else diff
             fp = dict(kind="series_differs_from_unlimited_run", how=diff, masked=pk == "masked")
@@ -249,12 +305,14 @@ def run_case(case):
         if outside:
             res["violations"].append(viol(dict(kind="file_outside_spill_location"), f"{slot} limit={lim}: files {outside[:3]}", one))
         if left and not isinstance(got, tuple):
-            res["violations"].append(viol(dict(kind="spill_files_left_after_finalize", slot="output" if kind.startswith("direct") else "adapter"), f"{slot} payload={pk} limit={lim}: {len(left)} files left, e.g. {left[:2]}", one))
+            res["violations"].append(viol(dict(kind="spill_files_left_after_finalize", slot="output" if kind.startswith(("direct", "static")) else "adapter"), f"{slot} payload={pk} limit={lim}: {len(left)} files left, e.g. {left[:2]}", one))
     res["sample"] = dict(kind=kind, payload=pk, steps=steps, end=end, limits=lims[:6], series_len=len(ref))
     return res
 
 
 def replay(case):
+    if case.get("shared"):
+        return run_shared(case)["violations"]
     return run_case(case)["violations"]
 
 
@@ -268,6 +326,8 @@ def run(tier, seed, agg):
     cases += [dict(kind=k, payload=p, steps=list(s), end=8, nmax=3 if q else 5, via="composition", order=o) for k in DELAYED for p in PAYLOADS for s in ((1, 1), (1, 2), (2, 1), (1, 3), (3, 2)) for o in ("PC", "CP")]
     cases += [dict(kind=k, payload="grid", steps=list(s), end=7, nmax=3, via="composition", order="CP") for k in KINDS for s in ((1, 1), (1, 2), (2, 3))]
     cases += [dict(kind=k, payload="grid_foreign_rate" if k in ("Sum", "SumLin") else "grid_foreign", steps=list(s), end=7, nmax=3, via="composition") for k in KINDS for s in ((1, 1), (1, 2), (2, 1), (1, 3))]
+    cases += [dict(kind=k, payload="grid", steps=list(s), end=6, nmax=3, via="composition", repush=True) for k in ("direct", "Next", "Previous", "Linear", "Step", "Avg", "Sum", "SumAbs") for s in ((1, 1), (1, 2), (2, 1))]
+    cases += [dict(kind="static", payload=p, steps=list(s), end=4, nmax=2, via=v) for p in PAYLOADS for s in ((1, 1), (2, 1)) for v in ("composition", "slot")]
     cases += [dict(kind=k, payload="masked_sometimes", steps=list(s), end=7, nmax=4, via="composition") for k in ("direct", "Next", "Previous", "Linear", "Step", "Avg") for s in ((1, 1), (1, 2), (2, 1), (1, 3))]
     # a slow producer under a fast consumer (several pulls inside one publication interval)
     cases += [dict(kind=k, payload=p, steps=list(s), end=14, nmax=3, via="composition") for k in ("direct", "Linear", "Next", "Avg") for p in ("scalar", "grid") for s in ((6, 1), (5, 2), (4, 1))]
@@ -278,6 +338,9 @@ def run(tier, seed, agg):
     os.makedirs(WORK, exist_ok=True)
     try:
         for r in pmap(run_case, cases):
+            agg.add(r)
+        shared = [dict(shared=True, payload=p, steps=list(st), end=6, limit=lim, connect_second_first=cf) for p in ("grid", "masked") for st in ((1, 1), (3, 1), (1, 2)) for lim in (0, 48, 100) for cf in (False, True)]
+        for r in pmap(run_shared, shared):
             agg.add(r)
     finally:
         shutil.rmtree(WORK, ignore_errors=True)
